@@ -471,7 +471,14 @@ func genFragment(rt *rapid.T, p *Profile, cfg *Config) []Step {
 	default: // alloc
 		life := rapid.SampledFrom([]int64{-1, 30, 60, 600, 3599, 3600}).Draw(rt, "flife")
 		life2 := rapid.SampledFrom([]int64{-1, 30, 61, 599, 3600, 86400}).Draw(rt, "flife2")
-		out = append(out, Step{Op: "Allocate", C: c, Life: life}, Step{Op: "CreatePermission", C: c, P: []int{peer}, Life: -1},
+		out = append(out, Step{Op: "Allocate", C: c, Life: life})
+		if rapid.IntRange(0, 1).Draw(rt, "fmanyChans") == 0 {
+			// several bindings and permissions that all have to go with the allocation
+			for k := 0; k < rapid.IntRange(3, 5).Draw(rt, "fnchans"); k++ {
+				out = append(out, Step{Op: "ChannelBind", C: c, P: []int{k % 3}, Ch: k % 3, Life: -1})
+			}
+		}
+		out = append(out, Step{Op: "CreatePermission", C: c, P: []int{peer}, Life: -1},
 			Step{Op: "Sleep", C: c, Rel: "alloc-", N: margin, Life: -1}, Step{Op: "Refresh", C: c, Life: life2},
 			Step{Op: "Sleep", C: c, Rel: "alloc-", N: margin + 1, Life: -1}, Step{Op: "CreatePermission", C: c, P: []int{peer}, Life: -1},
 			Step{Op: "Sleep", C: c, Rel: "alloc-", N: margin, Life: -1}, data("Send"), data("PeerData"),
